@@ -105,6 +105,7 @@ func (fr *Frame) step(in ssa.Instruction) {
 		if addr.P == nil {
 			fr.safety("nil", x, not(eq(vc.term(addr), "0")))
 		}
+		fr.locksetCheck(x, p, "write")
 		vc.storePtr(p, fr.cur, vc.term(v))
 	case *ssa.Phi:
 	case *ssa.Convert:
@@ -298,6 +299,7 @@ func (fr *Frame) unop(x *ssa.UnOp) {
 		if v.P == nil {
 			fr.safety("nil", x, not(eq(vc.term(v), "0")))
 		}
+		fr.locksetCheck(x, p, "read")
 		lv := vc.loadPtr(p, fr.cur)
 		r := fr.defineVal(x, lv.T)
 		vc.S.Assert(vc.rangeFact(r.T, x.Type(), 0))
